@@ -308,6 +308,18 @@ def check_wrappers(run, jax, jnp, ex, rng, tier):
                 wh = np.asarray(st.step_fourier(ex.fft(uj) + st.dt * ex.fft(jnp.asarray(f))))
                 if maxabs(gh - wh) > 1e-9 * (1 + maxabs(wh)):
                     run.violation(dict(key, what="step_fourier"), {})
+                # the wrappers compose: a forced repeated stepper is the repeated stepper applied to the Euler-forced state (one kick with the
+                # effective time step m*dt), and a repeated forced stepper is m forced steps
+                for m in (2, 3):
+                    rs = ex.RepeatedStepper(st, m)
+                    got = np.asarray(ex.ForcedStepper(rs)(uj, jnp.asarray(f)))
+                    want = np.asarray(rs(uj + rs.dt * jnp.asarray(f)))
+                    if got.shape != want.shape or maxabs(got - want) > 1e-9 * (1 + maxabs(want)):
+                        run.violation(dict(key, what=f"ForcedStepper(RepeatedStepper(., {m})) != RepeatedStepper(u + m dt f)"), {"err": maxabs(got - want)})
+                    gh = np.asarray(ex.ForcedStepper(rs).step_fourier(ex.fft(uj), ex.fft(jnp.asarray(f))))
+                    wh = np.asarray(rs.step_fourier(ex.fft(uj) + rs.dt * ex.fft(jnp.asarray(f))))
+                    if maxabs(gh - wh) > 1e-9 * (1 + maxabs(wh)):
+                        run.violation(dict(key, what=f"ForcedStepper(RepeatedStepper(., {m})).step_fourier"), {})
 
 
 def check_ic_set(run, jax, jnp, ex):
